@@ -33,7 +33,9 @@ class Amorph(Indicator):
     @property
     def settings(self) -> dict:
         """Returns a dict format of how this indicator can be generated"""
-        output = {"analysis": self._analysis_method.__name__}
+        output = {"analysis": self._analysis_name()}
+        if self._analysis_kwargs:
+            output["args"] = deepcopy(self._analysis_kwargs)
 
         for name, value in self.__dict__.items():
             if name == "candles":
@@ -44,6 +46,15 @@ class Amorph(Indicator):
                 output[name] = deepcopy(value)
 
         return output
+
+    def _analysis_name(self) -> str:
+        """Name the analysis is registered under in the pattern/movement maps"""
+        from hexital.analysis import MOVEMENT_MAP, PATTERN_MAP
+
+        for name, method in (PATTERN_MAP | MOVEMENT_MAP).items():
+            if method is self._analysis_method:
+                return name
+        return self._analysis_method.__name__
 
     @staticmethod
     def _separate_indicator_attributes(kwargs: dict) -> tuple[dict, dict]:
